@@ -36,6 +36,10 @@ pub struct RunCtx {
     jumps: Vec<JumpAt>,
     pending_fwd: AtomicU64,
     pending_back: AtomicU64,
+    /// simulated monotonic clock (CLOCK_MONOTONIC and friends): advances by `mono_tick_ns`
+    /// per read — a large tick is a slow or stalled node as seen by code that measures elapsed time
+    mono_ns: AtomicI64,
+    mono_tick_ns: AtomicI64,
     // counters (measured, reported in evidence)
     pub n_entropy_calls: AtomicU64,
     pub n_entropy_bytes: AtomicU64,
@@ -72,6 +76,8 @@ impl RunCtx {
             jumps,
             pending_fwd: AtomicU64::new(0),
             pending_back: AtomicU64::new(0),
+            mono_ns: AtomicI64::new(1_000_000_000_000),
+            mono_tick_ns: AtomicI64::new(1_000),
             n_entropy_calls: AtomicU64::new(0),
             n_entropy_bytes: AtomicU64::new(0),
             n_clock_reads: AtomicU64::new(0),
@@ -106,6 +112,10 @@ impl RunCtx {
         } else {
             self.pending_back.fetch_add(1, Relaxed);
         }
+    }
+
+    pub fn set_mono_tick(&self, tick_ns: i64) {
+        self.mono_tick_ns.store(tick_ns, Relaxed);
     }
 
     pub fn set_tick(&self, tick_ns: i64) {
@@ -294,7 +304,17 @@ pub unsafe extern "C" fn clock_gettime(clock: i32, ts: *mut Timespec) -> i32 {
     }
     let ctx = unsafe { &*p };
     if clock != CLOCK_REALTIME {
-        ctx.n_mono_reads.fetch_add(1, Relaxed);
+        // CLOCK_MONOTONIC (1), _RAW (4), _COARSE (6), BOOTTIME (7): the simulated monotonic clock;
+        // CPU-time clocks (2, 3) are passed through
+        if matches!(clock, 1 | 4 | 6 | 7) {
+            ctx.n_mono_reads.fetch_add(1, Relaxed);
+            let n = ctx.mono_ns.fetch_add(ctx.mono_tick_ns.load(Relaxed), Relaxed) + ctx.mono_tick_ns.load(Relaxed);
+            unsafe {
+                (*ts).tv_sec = n.div_euclid(NS);
+                (*ts).tv_nsec = n.rem_euclid(NS);
+            }
+            return 0;
+        }
         return unsafe { syscall(SYS_CLOCK_GETTIME, clock as i64, ts) } as i32;
     }
     let n = ctx.read_clock();
